@@ -46,6 +46,10 @@ func allRouteSpecs() []string {
 	for _, b := range muxUniBases {
 		out = append(out, fmt.Sprintf("s:%s:%s:0", hx([]byte(b)), hx(nil)))
 	}
+	// scope criteria that are no LDAP scope at all: registration must not mind, and they simply never match
+	for _, sc := range []int{3, -1, 255} {
+		out = append(out, fmt.Sprintf("s:%s:%s:%d", hx(nil), hx(nil), sc))
+	}
 	return out
 }
 
